@@ -8,6 +8,7 @@ struct Env<'a> {
     globals: HashMap<&'a str, &'a VarDecl>,
     locals: HashMap<String, Ty>,
     fn_ret: HashMap<&'a str, Ty>,
+    fn_params: HashMap<&'a str, Vec<Ty>>,
 }
 
 impl<'a> Env<'a> {
@@ -28,6 +29,9 @@ impl<'a> Env<'a> {
             Expr::Lv(LValue::Var(n)) => self.ty(n),
             Expr::Lv(LValue::Index(n, _)) => self.ty(n).map(|t| if t == Ty::Ptr { Ty::U8 } else { t }),
             Expr::Lv(LValue::Deref(_)) => Some(Ty::U8),
+            Expr::IncDec(_, _, lv) | Expr::Assign(_, lv, _) => self.expr_ty(&Expr::Lv(lv.clone())),
+            Expr::Un(UnOp::Neg, a) | Expr::Un(UnOp::BNot, a) => self.expr_ty(a),
+            Expr::Comma(_, b) => self.expr_ty(b),
             _ => None,
         }
     }
@@ -43,7 +47,8 @@ fn lv_mentions(lv: &LValue, name: &str) -> bool {
 
 pub fn mentions(e: &Expr, name: &str) -> bool {
     match e {
-        Expr::Lit(_, _) | Expr::SizeofVar(_) | Expr::SizeofType(_) => false,
+        Expr::Lit(_, _) | Expr::SizeofType(_) => false,
+        Expr::SizeofVar(n) => n == name,
         Expr::AddrOf(n) => n == name,
         Expr::Lv(lv) => lv_mentions(lv, name),
         Expr::Un(_, a) => mentions(a, name),
@@ -92,6 +97,8 @@ pub fn const_eval(e: &Expr) -> Option<i64> {
     match e {
         Expr::Lit(v, _) => Some(*v as i64),
         Expr::Lv(LValue::Var(n)) => CONSTS.with(|c| c.borrow().get(n).copied()),
+        Expr::SizeofVar(n) => CONSTS.with(|c| c.borrow().get(&format!("sizeof:{}", n)).copied()),
+        Expr::Comma(_, b) => const_eval(b),
         Expr::SizeofType(t) => Some(t.bytes() as i64),
         Expr::Un(op, a) => {
             let a = const_eval(a)?;
@@ -168,6 +175,7 @@ fn has_deref_of_ptr_var(env: &Env, e: &Expr) -> bool {
 
 fn lv_bits(env: &Env, lv: &LValue) -> u32 {
     match lv {
+        LValue::Var(n) if n == "#param16" => 16,
         LValue::Var(n) => env.ty(n).map(|t| t.bits()).unwrap_or(8),
         LValue::Index(n, _) => env.ty(n).map(|t| if t == Ty::Ptr { 8 } else { t.bits() }).unwrap_or(8),
         LValue::Deref(_) => 8,
@@ -262,7 +270,7 @@ fn check_full_expr(env: &Env, e: &Expr, in_condition: bool, ex: &Excl) -> Option
     if ex.has("y_borrow_in_condition") && in_condition && borrows_y(env, e) {
         return Some("y_borrow_in_condition");
     }
-    if ex.has("y_borrow_in_condition") || ex.has("signed_call_in_compare") {
+    if ex.has("y_borrow_in_condition") {
         walk(e, &mut |x| match x {
             Expr::Ternary(c, a, b) if ex.has("y_borrow_in_condition") => {
                 if borrows_y(env, c) || borrows_y(env, a) || borrows_y(env, b) {
@@ -274,14 +282,8 @@ fn check_full_expr(env: &Env, e: &Expr, in_condition: bool, ex: &Excl) -> Option
                     hit = Some("y_borrow_in_condition");
                 }
             }
-            Expr::Bin(op, a, b) if op.is_rel() && ex.has("signed_call_in_compare") => {
-                let signed_call = |e: &Expr| match e {
-                    Expr::Call(f, _) => env.fn_ret.get(f.as_str()).map(|t| t.signed()).unwrap_or(false),
-                    _ => false,
-                };
-                if signed_call(a) || signed_call(b) {
-                    hit = Some("signed_call_in_compare");
-                }
+            Expr::Un(UnOp::LNot, a) if ex.has("y_borrow_in_condition") && borrows_y(env, a) => {
+                hit = Some("y_borrow_in_condition");
             }
             _ => {}
         });
@@ -337,6 +339,73 @@ fn check_full_expr(env: &Env, e: &Expr, in_condition: bool, ex: &Excl) -> Option
             return hit;
         }
     }
+    {
+        // an argument passed to a 16-bit parameter is an assignment to a 16-bit object
+        let mut fake: Vec<Expr> = vec![];
+        walk(e, &mut |x| {
+            if let Expr::Call(f, args) = x {
+                if let Some(pt) = env.fn_params.get(f.as_str()) {
+                    for (a, t) in args.iter().zip(pt.iter()) {
+                        if t.bits() == 16 && *t != Ty::Ptr {
+                            fake.push(Expr::Assign(None, LValue::Var("#param16".into()), Box::new(a.clone())));
+                        }
+                    }
+                }
+            }
+        });
+        for f in &fake {
+            if let Some(r) = check_full_expr(env, f, false, ex) {
+                return Some(r);
+            }
+        }
+    }
+    if ex.has("postfix_across_sequence_point") && has_postfix(e) {
+        let mut seq = false;
+        walk(e, &mut |x| match x {
+            Expr::Comma(_, _) | Expr::Ternary(_, _, _) | Expr::Call(_, _) | Expr::Bin(BinOp::LAnd, _, _) | Expr::Bin(BinOp::LOr, _, _) => {
+                seq = true
+            }
+            _ => {}
+        });
+        if seq {
+            return Some("postfix_across_sequence_point");
+        }
+    }
+    if ex.has("constant_in_logical") {
+        walk(e, &mut |x| {
+            if let Expr::Bin(BinOp::LAnd, a, b) | Expr::Bin(BinOp::LOr, a, b) = x {
+                if const_eval(a).is_some() || const_eval(b).is_some() {
+                    hit = Some("constant_in_logical");
+                }
+            }
+        });
+        if hit.is_some() {
+            return hit;
+        }
+    }
+    if ex.has("y_borrow_with_call") && borrows_y(env, e) {
+        let mut call = false;
+        walk(e, &mut |x| {
+            if matches!(x, Expr::Call(_, _)) {
+                call = true;
+            }
+        });
+        if call {
+            return Some("y_borrow_with_call");
+        }
+    }
+    if ex.has("y_borrow_in_call_args") {
+        walk(e, &mut |x| {
+            if let Expr::Call(_, args) = x {
+                if args.iter().any(|a| borrows_y(env, a)) {
+                    hit = Some("y_borrow_in_call_args");
+                }
+            }
+        });
+        if hit.is_some() {
+            return hit;
+        }
+    }
     if ex.has("postfix_in_call_args") {
         walk(e, &mut |x| {
             if let Expr::Call(_, args) = x {
@@ -357,6 +426,9 @@ fn check_full_expr(env: &Env, e: &Expr, in_condition: bool, ex: &Excl) -> Option
             Expr::Un(UnOp::BNot, a) => {
                 if ex.has("bnot16") && env.expr_ty(a).map(|t| t.bits() == 16).unwrap_or(false) {
                     hit = Some("bnot16");
+                }
+                if ex.has("bnot_const") && const_eval(a).is_some() {
+                    hit = Some("bnot_const");
                 }
             }
             Expr::Assign(_, lv, r) if ex.has("bnot16") && lv_bits(env, lv) == 16 && contains_bnot(r) => {
@@ -401,11 +473,21 @@ fn check_full_expr(env: &Env, e: &Expr, in_condition: bool, ex: &Excl) -> Option
             {
                 hit = Some("identity_op_on_register_operand");
             }
-            Expr::Un(UnOp::BNot, a) if ex.has("bnot_const") && const_eval(a).is_some() => {
-                hit = Some("bnot_const");
-            }
-            Expr::Assign(_, LValue::Deref(p), r) | Expr::Assign(_, LValue::Index(p, _), r)
-                if ex.has("deref_store_bool_rhs") && env.is_ptr_var(p) && {
+            Expr::Assign(_, lv, r)
+                if ex.has("deref_store_bool_rhs")
+                    && match lv {
+                        LValue::Deref(p) => env.is_ptr_var(p),
+                        LValue::Index(p, i) => {
+                            env.is_ptr_var(p)
+                                || !match &**i {
+                                    Expr::Lit(_, _) => true,
+                                    Expr::Lv(LValue::Var(v)) => v == "X" || v == "Y",
+                                    _ => false,
+                                }
+                        }
+                        _ => false,
+                    }
+                    && {
                     let mut f = false;
                     walk(r, &mut |y| match y {
                         Expr::Un(UnOp::LNot, _) | Expr::Ternary(_, _, _) => f = true,
@@ -472,6 +554,53 @@ fn check_full_expr(env: &Env, e: &Expr, in_condition: bool, ex: &Excl) -> Option
                 hit = Some("add16_register_operand/signed_array_var_index_to_16");
             }
             Expr::Bin(op, a, b)
+                if ex.has("comma_in_compare_operand") && op.is_cmp() && (matches!(**a, Expr::Comma(_, _)) || matches!(**b, Expr::Comma(_, _))) =>
+            {
+                hit = Some("comma_in_compare_operand");
+            }
+            Expr::Bin(BinOp::Shr, a, _)
+                if ex.has("short_array_shr8")
+                    && matches!(&**a, Expr::Lv(LValue::Index(n, _)) if env.ty(n).map(|t| t.bits() == 16 && t != Ty::Ptr).unwrap_or(false)) =>
+            {
+                hit = Some("short_array_shr8");
+            }
+            Expr::Bin(op, a, b)
+                if ex.has("signed_call_result")
+                    && (op.is_rel() || *op == BinOp::Shr)
+                    && {
+                        let signed_call = |e: &Expr| match e {
+                            Expr::Call(f, _) => env.fn_ret.get(f.as_str()).map(|t| t.signed()).unwrap_or(false),
+                            _ => false,
+                        };
+                        signed_call(a) || (op.is_rel() && signed_call(b))
+                    } =>
+            {
+                hit = Some("signed_call_result");
+            }
+            Expr::Bin(op, a, b)
+                if ex.has("nested_assign_in_compare")
+                    && (op.is_cmp() || *op == BinOp::Shr)
+                    && (matches!(**a, Expr::Assign(_, _, _)) || (op.is_cmp() && matches!(**b, Expr::Assign(_, _, _)))) =>
+            {
+                hit = Some("nested_assign_in_compare");
+            }
+            Expr::Assign(None, LValue::Var(l), r) if ex.has("self_assign") && matches!(&**r, Expr::Lv(LValue::Var(v)) if v == l) => {
+                hit = Some("self_assign");
+            }
+            Expr::Bin(_, a, b)
+                if ex.has("call_result_clobbered")
+                    && matches!(**a, Expr::Call(_, _))
+                    && !matches!(**b, Expr::Lit(_, _) | Expr::Lv(LValue::Var(_))) =>
+            {
+                hit = Some("call_result_clobbered");
+            }
+            Expr::Bin(BinOp::Le | BinOp::Gt, a, b)
+                if ex.has("le_gt_16bit")
+                    && (env.expr_ty(a).map(|t| t.bits() == 16).unwrap_or(false) || env.expr_ty(b).map(|t| t.bits() == 16).unwrap_or(false)) =>
+            {
+                hit = Some("le_gt_16bit");
+            }
+            Expr::Bin(op, a, b)
                 if op.is_cmp() && ex.has("cmp16_vs_8") && {
                     let ta = env.expr_ty(a).map(|t| t.bits());
                     let tb = env.expr_ty(b).map(|t| t.bits());
@@ -487,11 +616,17 @@ fn check_full_expr(env: &Env, e: &Expr, in_condition: bool, ex: &Excl) -> Option
             }
             Expr::Bin(op, a, b)
                 if op.is_cmp() && ex.has("indexed_vs_register_compare") && {
-                    let reg = |e: &Expr| match e {
+                    fn last(e: &Expr) -> &Expr {
+                        match e {
+                            Expr::Comma(_, b) => last(b),
+                            o => o,
+                        }
+                    }
+                    let reg = |e: &Expr| match last(e) {
                         Expr::Lv(LValue::Var(v)) | Expr::IncDec(_, _, LValue::Var(v)) => v == "X" || v == "Y",
                         _ => false,
                     };
-                    let idx = |e: &Expr| matches!(e, Expr::Lv(LValue::Index(_, _)));
+                    let idx = |e: &Expr| matches!(last(e), Expr::Lv(LValue::Index(_, _)));
                     (reg(a) && idx(b)) || (idx(a) && reg(b))
                 } =>
             {
@@ -543,6 +678,75 @@ fn check_full_expr(env: &Env, e: &Expr, in_condition: bool, ex: &Excl) -> Option
     hit
 }
 
+/// first expression evaluated by a statement
+fn first_expr(s: &Stmt) -> Option<&Expr> {
+    match s {
+        Stmt::Expr(e) | Stmt::If(e, _, _) | Stmt::While(e, _) | Stmt::Switch(e, _, _) | Stmt::Return(Some(e)) | Stmt::Load(e) => Some(e),
+        Stmt::Decl(d) => d.init.as_ref(),
+        Stmt::For(i, c, _, _) => i.as_ref().or(c.as_ref()),
+        Stmt::Block(b) => b.first().and_then(first_expr),
+        Stmt::DoWhile(b, _) => first_expr(b),
+        Stmt::Label(_, s) => first_expr(s),
+        _ => None,
+    }
+}
+
+fn check_list(env: &mut Env, v: &[Stmt], ex: &Excl) -> Option<&'static str> {
+    for (i, s) in v.iter().enumerate() {
+        if ex.has("incdec16_then_test") {
+            if let Stmt::Expr(Expr::IncDec(_, _, LValue::Var(n))) = s {
+                if env.ty(n).map(|t| t.bits() == 16 && t != Ty::Ptr).unwrap_or(false) {
+                    if let Some(e) = v.get(i + 1).and_then(first_expr) {
+                        if mentions(e, n) {
+                            return Some("incdec16_then_test");
+                        }
+                    }
+                }
+            }
+        }
+        if ex.has("reg_store_then_test") {
+            if let Stmt::Expr(Expr::Assign(None, LValue::Var(n), r)) = s {
+                if matches!(&**r, Expr::Lv(LValue::Var(v)) if v == "X" || v == "Y") {
+                    if let Some(e) = v.get(i + 1).and_then(first_expr) {
+                        if mentions(e, n) {
+                            return Some("reg_store_then_test");
+                        }
+                    }
+                }
+            }
+        }
+        if ex.has("shift16_keeps_stale_flags") {
+            if let Stmt::Expr(Expr::Assign(Some(BinOp::Shl | BinOp::Shr), LValue::Var(n), _)) = s {
+                if env.ty(n).map(|t| t.bits() == 16 && t != Ty::Ptr).unwrap_or(false) {
+                    if let Some(next) = v.get(i + 1) {
+                        let tests = match next {
+                            Stmt::If(..) | Stmt::While(..) | Stmt::DoWhile(..) | Stmt::For(..) | Stmt::Switch(..) => true,
+                            other => first_expr(other).map(has_truth_test).unwrap_or(false),
+                        };
+                        if tests {
+                            return Some("shift16_keeps_stale_flags");
+                        }
+                    }
+                }
+            }
+        }
+        if let Some(r) = check_stmt(env, s, ex) {
+            return Some(r);
+        }
+    }
+    None
+}
+
+fn has_truth_test(e: &Expr) -> bool {
+    let mut f = false;
+    walk(e, &mut |y| match y {
+        Expr::Un(UnOp::LNot, _) | Expr::Ternary(_, _, _) => f = true,
+        Expr::Bin(op, _, _) if op.is_cmp() || matches!(op, BinOp::LAnd | BinOp::LOr) => f = true,
+        _ => {}
+    });
+    f
+}
+
 fn check_stmt(env: &mut Env, s: &Stmt, ex: &Excl) -> Option<&'static str> {
     match s {
         Stmt::Expr(e) => check_full_expr(env, e, false, ex),
@@ -556,7 +760,7 @@ fn check_stmt(env: &mut Env, s: &Stmt, ex: &Excl) -> Option<&'static str> {
         }
         Stmt::Block(b) => {
             let saved = env.locals.clone();
-            let r = b.iter().find_map(|x| check_stmt(env, x, ex));
+            let r = check_list(env, b, ex);
             env.locals = saved;
             r
         }
@@ -571,8 +775,8 @@ fn check_stmt(env: &mut Env, s: &Stmt, ex: &Excl) -> Option<&'static str> {
             .or_else(|| u.as_ref().and_then(|e| check_full_expr(env, e, false, ex)))
             .or_else(|| check_stmt(env, b, ex)),
         Stmt::Switch(e, cases, d) => check_full_expr(env, e, true, ex)
-            .or_else(|| cases.iter().find_map(|c| c.body.iter().find_map(|x| check_stmt(env, x, ex))))
-            .or_else(|| d.as_ref().and_then(|d| d.iter().find_map(|x| check_stmt(env, x, ex)))),
+            .or_else(|| cases.iter().find_map(|c| check_list(env, &c.body, ex)))
+            .or_else(|| d.as_ref().and_then(|d| check_list(env, d, ex))),
         Stmt::Label(_, s) => check_stmt(env, s, ex),
         Stmt::Return(Some(e)) => {
             if ex.has("return_postfix") && has_postfix(e) {
@@ -600,6 +804,7 @@ pub fn find_excluded(p: &Program, ex: &Excl) -> Option<&'static str> {
             if let VarKind::ConstScalar(v) = g.kind {
                 c.insert(g.name.clone(), v as i64);
             }
+            c.insert(format!("sizeof:{}", g.name), (g.len() * g.ty.bytes() as usize) as i64);
         }
     });
     for f in &p.funcs {
@@ -607,14 +812,13 @@ pub fn find_excluded(p: &Program, ex: &Excl) -> Option<&'static str> {
             globals: p.globals.iter().map(|g| (g.name.as_str(), g)).collect(),
             locals: HashMap::new(),
             fn_ret: p.funcs.iter().filter_map(|f| f.ret.map(|t| (f.name.as_str(), t))).collect(),
+            fn_params: p.funcs.iter().map(|f| (f.name.as_str(), f.params.iter().map(|p| p.1).collect())).collect(),
         };
         for (n, t) in &f.params {
             env.locals.insert(n.clone(), *t);
         }
-        for s in &f.body {
-            if let Some(r) = check_stmt(&mut env, s, ex) {
-                return Some(r);
-            }
+        if let Some(r) = check_list(&mut env, &f.body, ex) {
+            return Some(r);
         }
     }
     None
